@@ -73,3 +73,16 @@ def region_of_edge(g, edge):
         if n is edge or edge in g.dominators(n):
             out.append(n)
     return out
+
+
+def block_after(edge, limit=12):
+    """Straight-line nodes entered through `edge` (followed while there is a single successor): the block an if-branch
+    jumps to, even when the block is shared with another edge of a short-circuit condition."""
+    out = []
+    cur = edge.succ[0] if edge.succ else None
+    n = 0
+    while cur is not None and n < limit:
+        out.append(cur); n += 1
+        if cur.kind in ('return', 'exit', 'throw', 'unreach') or len(cur.succ) != 1: break
+        cur = cur.succ[0]
+    return out
